@@ -43,6 +43,9 @@ func runC13(r *ev.Run) {
 		var hist []histOp
 		nTrain := nlist + rng.IntN(40)
 		if rng.IntN(5) == 0 {
+			nTrain = nlist // exactly one training vector per cluster
+		}
+		if rng.IntN(5) == 0 {
 			nTrain = nlist + rng.IntN(500-nlist+1)
 		}
 		dupHeavy := rng.IntN(3) == 0
@@ -130,7 +133,20 @@ func runC13(r *ev.Run) {
 			}
 			r.Count("invariant:list-membership-checks", 1)
 		}
+		var held *heldSearch
 		probe := func() {
+			if held == nil || rng.IntN(8) == 0 {
+				ho := vecProbeOpts{NProbes: []int{-1, 0, 1, nlist, 1 + rng.IntN(nlist)}[rng.IntN(5)]}
+				held = newHeldSearch(func() comet.VectorSearch { return s.search(ho) })
+				hq := vg.query()
+				held.step("WithQuery", func(x comet.VectorSearch) comet.VectorSearch { return x.WithQuery(cloneF32(hq)) })
+			} else {
+				heldSearchStep(rng, held, vg.query(), m.liveIDs(), len(m.live))
+			}
+			if !held.compare(rep, "ivf") {
+				held = nil
+			}
+			r.Count("probes:held-search-object", 1)
 			for qi := 0; qi < 1+rng.IntN(2); qi++ {
 				q := vg.query()
 				pq, err := s.dist.Preprocess(cloneF32(q))
